@@ -2489,7 +2489,15 @@ impl TrustedRuntimeWal {
             next_lsn
         };
         let writer_epoch = store.acquire_runtime_writer_epoch(next_lsn)?;
-        let next_lsn = writer_epoch.started_at_lsn;
+        // The epoch ledger may start a fresh epoch above the recovered frontier (an epoch
+        // that committed nothing forces the next epoch's start LSN to increase). Frames
+        // must nevertheless continue the committed LSN sequence without a hole, or the
+        // next recovery rejects the log with `LsnContinuityMismatch`.
+        let next_lsn = if recovered_cursor.has_committed_history {
+            recovered_cursor.next_lsn
+        } else {
+            writer_epoch.started_at_lsn
+        };
         let writer_epoch = writer_epoch.epoch_id;
         let durability_mode = store.durability_mode();
         Ok(Self {
